@@ -1198,6 +1198,49 @@ fn sweep_tie_rules(ctx: &Ctx, tabs: &Tables, thorough: bool) -> Tally {
     t
 }
 
+/// long call histories on one thread: a search in a three-type zone, N searches in a two-type zone (which never touch the
+/// third type), then a different search in the three-type zone, for every N in {2^k - 2 .. 2^k + 1}, k = 4..=17 (state that
+/// is recycled by a wrapping counter or a fixed-capacity table shows only after that many calls)
+fn sweep_long_histories(ctx: &Ctx) -> Tally {
+    let cyc = ctx.cyc;
+    let mut tl = Tally::default();
+    let r = guard(|| {
+        let mut tl = Tally::default();
+        let t3 = vec![MType::new(0, false, Some("AAA")), MType::new(3600, true, Some("BBB")), MType::new(7200, false, Some("CCC"))];
+        let z3 = MZone { trans: vec![(800_000_000, 1), (801_000_000, 2), (802_000_000, 0), (959_000_000, 2), (960_000_000, 1)], types: t3.clone(), leaps: vec![(78_796_800, 1)], rule: Some(MRule::Fixed(t3[1])) };
+        let t2 = vec![MType::new(-18_000, false, Some("EST")), MType::new(-14_400, true, Some("EDT"))];
+        let z2 = MZone { trans: vec![(500_000_000, 1), (510_000_000, 0), (520_000_000, 1)], types: t2.clone(), leaps: vec![(78_796_800, 1)], rule: Some(MRule::Fixed(t2[1])) };
+        let (i3, i2) = (ImplZone::from_model(&z3).unwrap(), ImplZone::from_model(&z2).unwrap());
+        let (r3, r2) = (i3.zref().unwrap(), i2.zref().unwrap());
+        let probes3 = [801_500_000i64 + 7200, 959_500_000 + 7200, 801_000_000 + 3600 + 1800, 960_000_000 + 7200];
+        let mut ns: Vec<usize> = vec![];
+        for k in 4..=17u32 {
+            for d in [-2i64, -1, 0, 1] {
+                ns.push(((1i64 << k) + d) as usize);
+            }
+        }
+        for (j, &n) in ns.iter().enumerate() {
+            let a = Fields::of_local(cyc, probes3[j % 4], 0).unwrap();
+            let b = Fields::of_local(cyc, probes3[(j + 1) % 4], 0).unwrap();
+            check_search(ctx, &z3, r3, &a, "long_histories", &mut tl);
+            for f in 0..n {
+                let l = 505_000_000 + (f as i64 % 1000) * 3600 - 18_000;
+                if let Some(x) = Fields::of_local(cyc, l, 0) {
+                    check_search(ctx, &z2, r2, &x, "long_histories", &mut tl);
+                }
+            }
+            check_search(ctx, &z3, r3, &b, "long_histories", &mut tl);
+        }
+        tl
+    });
+    match r {
+        Ok(t) => tl = tl.merge(t),
+        Err(m) => ctx.rec.violation("long_histories", json!({"kind":"long_histories"}), json!("no panic"), json!(m)),
+    }
+    ctx.rec.sub("long_histories", tl.json());
+    tl
+}
+
 /// table + DST rule: the last table transition sits at delta from a rule transition
 pub fn sweep_junction(ctx: &Ctx, tabs: &Tables, thorough: bool, leap_only: bool, light: bool) -> Tally {
     let cyc = ctx.cyc;
@@ -1480,6 +1523,8 @@ pub fn run_sweeps(ctx: &Ctx, tabs: &Tables, thorough: bool, light: bool) -> Tall
     }
     // 3c. first and last years of the rule arithmetic
     total = total.merge(sweep_rule_extreme_years(ctx));
+    // 3d. long call histories on one thread
+    total = total.merge(sweep_long_histories(ctx));
     // 4. junction
     total = total.merge(sweep_junction(ctx, tabs, thorough, false, light));
     // real zones
